@@ -78,19 +78,34 @@ def run(sid, props):
     meta = json.loads((d / "meta.json").read_text())
     if not props:
         props = [meta.get("property", sid.split("-")[0])]
-    rc, o = sh("git -C /repo status --porcelain")
-    assert o.strip() == "", "/repo not clean: " + o
-    rc, o = sh(f"git -C /repo apply {d/'patch.diff'}")
-    assert rc == 0, o
+    scratch = os.environ.get("VERIF_SCRATCH")      # run against a scratch worktree instead of /repo itself
+    env = None
+    if scratch:
+        wt = tempfile.mkdtemp(prefix="hvrun.", dir="/tmp")
+        os.rmdir(wt)
+        rc, o = sh(f"git -C /repo worktree add --detach {wt} HEAD -q")
+        assert rc == 0, o
+        rc, o = sh(f"git -C {wt} apply {d/'patch.diff'}")
+        assert rc == 0, o
+        env = dict(os.environ, VERIF_REPO=wt)
+    else:
+        rc, o = sh("git -C /repo status --porcelain")
+        assert o.strip() == "", "/repo not clean: " + o
+        rc, o = sh(f"git -C /repo apply {d/'patch.diff'}")
+        assert rc == 0, o
     results = meta.setdefault("checks", {})
     try:
         for p in props:
-            rc, o = sh(f"./check {p} --tier quick", cwd=ROOT, timeout=3000)
+            rc, o = sh(f"./check {p} --tier quick", cwd=ROOT, timeout=3000, env=env)
             viol = [l for l in o.splitlines() if l.startswith("VIOLATION")]
             results[p] = {"exit": rc, "violation_lines": viol[:3], "detected": rc == 1 and bool(viol)}
             print(sid, p, "exit", rc, viol[:1])
     finally:
-        sh("git -C /repo checkout -- .")
+        if scratch:
+            sh(f"git -C /repo worktree remove --force {wt}")
+            shutil.rmtree(wt, ignore_errors=True)
+        else:
+            sh("git -C /repo checkout -- .")
         # restore evidence / extraction for the clean tree
         sh("/venv/bin/python harness/extract.py", cwd=ROOT)
     (d / "meta.json").write_text(json.dumps(meta, indent=1))
